@@ -31,6 +31,14 @@ TIERS = {
                          run_timeout=300, determinism=128, shrink_budget=240,
                          shrink_timeout=900),
     },
+    'C14': {
+        'quick': dict(runs=4000, workers=16, batch_timeout=900,
+                      run_timeout=120, determinism=32, shrink_budget=90,
+                      shrink_timeout=400),
+        'thorough': dict(runs=120000, workers=16, batch_timeout=10800,
+                         run_timeout=120, determinism=256, shrink_budget=240,
+                         shrink_timeout=900),
+    },
 }
 
 COMMON_ASSUMPTIONS = [
@@ -183,6 +191,44 @@ META = {
             'sample values are distinct per parameter (ties in x make the '
             'quantile rule order dependent); weights may tie freely',
             'resume/crash of the external samplers is out of scope',
+        ],
+    },
+    'C14': {
+        'rule': 'one run = one history of cache operations (set path, set '
+                'interpolation, memory mode, clear, get, interior probe, '
+                'add_opacity, CIA and k-table requests) interleaved with '
+                'storage events (file replaced / removed / added, listing '
+                'order and format-class order permuted) over a per-run scratch '
+                'store holding the same physical tables in every container '
+                'format; checked op by op against a dict reference model; '
+                'non-trivial = at least one container actually loaded; '
+                'distinct = distinct (set of formats loaded, set of op-kind '
+                'trigrams, storage fault kinds fired)',
+        'probes': ['served_again', 'duplicate_containers',
+                   'cleared_while_populated', 'replaced_after_served',
+                   'removed_after_served', 'mode_discriminating_probe',
+                   'missing_molecule_requested'],
+        'real': ['PickleOpacity, HDF5Opacity, ExoTransmitOpacity, '
+                 'PickleKTable, HDF5KTable, PickleCIA, HitranCIA',
+                 'OpacityCache, KTableCache, CIACache, GlobalCache',
+                 'ClassFactory format discovery, sanitize_molecule_string',
+                 'InterpolatingOpacity interior interpolation (both modes)',
+                 'real files through open/pickle/h5py on a scratch directory'],
+        'stub': ['container writers (sim/storage.py) with layouts taken from '
+                 'the readers', 'glob.glob -> seeded permutation of the '
+                 'listing', 'ClassFactory class sets -> lists in seeded order'],
+        'assumptions': COMMON_ASSUMPTIONS + [
+            'duplicate containers of one molecule in one directory hold the '
+            'same table (which wins is discovery order, part of the schedule)',
+            'probes lie strictly inside a (T, log P) cell; tolerance 1e-9 '
+            'relative; table equality 1e-12 relative (+1e-60 m2 documented '
+            'Exo-Transmit offset)',
+            'one CIA container per pair per directory; HITRAN blocks with '
+            'per-temperature wavenumber ranges are unified by the documented '
+            'rule (zero outside a range\'s temperatures, linear inside)',
+            'k-table interpolation mode is checked for loads after an explicit '
+            'KTableCache.clear_cache()',
+            'NEMESIS k-tables and RADIS are not in the statement',
         ],
     },
 }
